@@ -21,6 +21,7 @@ Text is passed as hex of its UTF-8 bytes (`-` = empty).
   (a leading `x` = the request carries no injection option)
 * `c16segs <live> <astTod> <elapsedUs> <depth> <timescale> <segdur> <errs>` → `code=seg,…` | `-`
 * `c16gsi <durs,…> <R> <tc> <fuel>` → `found <m> <s> <o>` | `assert` | `running`
+* `c16ntp <us>`            → `<seconds> <fraction>` | `StructError`: the NTP fields of `/time/http-ntp`
 -/
 namespace DashLive.Driver.Inject
 open DashLive.Driver DashLive.OptionErrors DashLive.Inject
@@ -99,6 +100,7 @@ def showExc : Exc → String
   | .zeroDivisionError => "ZeroDivisionError"
   | .indexError => "IndexError"
   | .templateError => "TemplateError"
+  | .structError => "StructError"
 
 def parseArg (s : String) : Option PyArg :=
   match s with
@@ -246,7 +248,16 @@ def chGsi : List String → Option String
     | .running => pure "running"
   | _ => none
 
+def chNtp : List String → Option String
+  | [u] => do
+    let us ← parseInt u
+    match ntpFields us with
+    | .ok (s, f) => pure s!"{s} {f}"
+    | .error e => pure (showExc e)
+  | _ => none
+
 def channels : List (String × (List String → Option String)) :=
-  [("c16opt", chOpt), ("c16calc", chCalc), ("c16inj", chInj), ("c16segs", chSegs), ("c16gsi", chGsi)]
+  [("c16opt", chOpt), ("c16calc", chCalc), ("c16inj", chInj), ("c16segs", chSegs), ("c16gsi", chGsi),
+   ("c16ntp", chNtp)]
 
 end DashLive.Driver.Inject
